@@ -445,4 +445,13 @@ def r11_multi(ctx):
         ctx.functions.add(q)
 
 
-RULES = [('R11-close', r11_close), ('R11-send', r11_send), ('R11-receive', r11_receive), ('R11-multi', r11_multi)]
+def r11_server(ctx):
+    """Blocking receive on PortServer (a MultiPort) returns as soon as a message is deliverable (shared with C18 R18.4)."""
+    from . import c18
+    before = len(ctx.obligations)
+    c18.r18_4(ctx)
+    for o in ctx.obligations[before:]:
+        o.rule = 'R11.6' if o.rule == 'R18.4' else o.rule
+
+
+RULES = [('R11-server', r11_server), ('R11-close', r11_close), ('R11-send', r11_send), ('R11-receive', r11_receive), ('R11-multi', r11_multi)]
